@@ -289,6 +289,18 @@ class Structures:
             if r[0] == 'BAD':
                 return ('BAD', r[1], 'helper schema', r[2])
             return (r[0], r[1])
+        if k == 'call' and t[1] == S('Counter') and len(t[2]) == 1 and t[2][0][0] == 'comp' and len(t[2][0][1]) == 1:
+            # Counter(key(pair) for pair in ASG if pair is not None): a count per key, 0 for a key that never occurs
+            (b, g), el = t[2][0][1][0], t[2][0][2]
+            name = self.name_of(t)
+            if b[3] != self.asg:
+                return None
+            if not (el[0] == 'attr' and el[1] == b and el[2] in OWN.values()):
+                return ('BAD', None, 'counts %s are keyed by the own project / lecturer index of the assignee' % name, show(el))
+            sort = 'P' if el[2] == 'project_index' else 'L'
+            if g not in notnone_forms(b):
+                return ('BAD', sort, 'counts %s count every non-None entry of the assignment (and only those)' % name, 'guard ' + show(g)[:80])
+            return ('COUNT', sort)
         if k == 'dictcomp' and len(t[1]) == 1 and t[1][0][1] == TRUE:
             b = t[1][0][0]
             d = b[3]
@@ -410,7 +422,7 @@ class StabEval(TermEval):
             if isinstance(o, Abs) and o.tag == 'obj':
                 return Abs('attr', (o.data, t[2]))
             raise Unknown('attribute %s of %r' % (t[2], o))
-        if k in ('accum', 'dictcomp'):
+        if k in ('accum', 'dictcomp') or (k == 'call' and t[1] == S('Counter')):
             c = self.st.classify(t)
             if c:
                 return Abs('arr', c)
